@@ -129,7 +129,11 @@ pub fn build_fast_import_cmd(opts: &Options) -> Command {
         } else {
             marks_path
         };
-        cmd.arg(format!("--export-marks={}", marks_path.to_string_lossy()));
+        // Keep the path byte for byte: a lossy conversion would send the marks of a repository
+        // under a non-UTF-8 directory name to a different (newly created) directory.
+        let mut marks_arg = std::ffi::OsString::from("--export-marks=");
+        marks_arg.push(marks_path.as_os_str());
+        cmd.arg(marks_arg);
     }
     cmd.stdin(Stdio::piped());
     cmd.stdout(Stdio::piped());
